@@ -11,8 +11,8 @@ OPSRC = {"isnot": "is not", "notin": "not in"}
 
 # ---- chain operands -------------------------------------------------------------------------
 CH_DOM = ["m1", "i0", "i1", "f0", "f1", "T", "sa", "sb", "ba", "N", "W"]
-CH_DOM3 = ["m1", "i0", "i1", "f1", "T", "sa", "ba", "N", "W"]
-CH_DOM4 = ["i0", "i1", "f1", "sa", "N", "W"]
+CH_DOM3 = {"quick": ["m1", "i1", "f1", "sa", "ba", "W"], "thorough": ["m1", "i0", "i1", "f1", "T", "sa", "ba", "N", "W"]}
+CH_DOM4 = {"quick": ["i0", "i1", "sa", "W"], "thorough": ["i0", "i1", "f1", "sa", "N", "W"]}
 TY_DOM = {"i": ["m1", "i0", "i1"], "d": ["f0", "f1"], "s": ["sa", "sb", "N"], "y": ["ba", "N"]}
 TY_DECL = {"o": "", "i": "int ", "d": "double ", "s": "str ", "y": "bytes "}
 TY_LEAF = {"o": "L", "i": "Li", "d": "Ld", "s": "Ls", "y": "Ly"}
@@ -21,7 +21,7 @@ C_TYPED = ("i", "d")
 # ---- membership -----------------------------------------------------------------------------
 XM = ["m1", "i0", "i1", "i2", "f1", "T", "sa", "ba", "N", "W", "nan", "U"]
 MM = ["i0", "i1", "f1", "T", "sa", "ba", "N", "W", "nan"]
-MM3 = ["i1", "f1", "sa", "N", "W", "nan"]
+MM3 = {"quick": ["i1", "sa", "W", "nan"], "thorough": ["i1", "f1", "sa", "N", "W", "nan"]}
 MLIT = ["m1", "i0", "i1", "f1", "T", "sa", "ba", "N"]
 LIT_SRC = {"m1": "-1", "i0": "0", "i1": "1", "i2": "2", "f0": "0.0", "f1": "1.0", "T": "True",
            "sa": '"a"', "sb": '"b"', "ba": 'b"a"', "N": "None"}
@@ -114,8 +114,8 @@ def chain_typing_ok(ops, ty):
     return True
 
 
-def chain_doms(ty, nops):
-    base = CH_DOM if nops == 1 else (CH_DOM3 if nops == 2 else CH_DOM4)
+def chain_doms(ty, nops, tier):
+    base = CH_DOM if nops == 1 else (CH_DOM3[tier] if nops == 2 else CH_DOM4[tier])
     return [base if t == "o" else TY_DOM[t] for t in ty]
 
 
@@ -127,12 +127,11 @@ def chain_shapes(tier, rng):
         for ty in tys1:
             if not chain_typing_ok([op], ty):
                 continue
-            for ctx in ("val", "bool"):
-                for form in ("leaf", "name"):
-                    out.append({"ops": [op], "ty": "".join(ty), "ctx": ctx, "form": form})
+            for ctx, form in (("val", "leaf"), ("bool", "leaf"), ("val", "name")) + ((("bool", "name"),) if tier != "quick" else ()):
+                out.append({"ops": [op], "ty": "".join(ty), "ctx": ctx, "form": form})
     ops2 = list(itertools.product(OPS, repeat=2))
-    for ops in ops2:
-        for ctx in ("val", "bool"):
+    for k, ops in enumerate(ops2):
+        for ctx in (("val", "bool") if tier != "quick" else (("val", "bool")[(k + k // 10) % 2],)):
             out.append({"ops": list(ops), "ty": "ooo", "ctx": ctx, "form": "leaf"})
     typed2 = [(ops, ty) for ops in ops2 for ty in itertools.product("oid", repeat=3)
               if ty != ("o", "o", "o") and chain_typing_ok(ops, ty)]
@@ -142,7 +141,7 @@ def chain_shapes(tier, rng):
     typed3 = [(ops, ty) for ops in ops3 for ty in itertools.product("oid", repeat=4)
               if ty != ("o",) * 4 and chain_typing_ok(ops, ty)]
     if tier == "quick":
-        pick2, pickm, pick3, pick3t = rng.sample(typed2, 150), rng.sample(mixed2, 50), rng.sample(ops3, 60), rng.sample(typed3, 40)
+        pick2, pickm, pick3, pick3t = rng.sample(typed2, 150), rng.sample(mixed2, 50), rng.sample(ops3, 24), rng.sample(typed3, 40)
     else:
         pick2, pickm, pick3, pick3t = typed2, rng.sample(mixed2, 1200), rng.sample(ops3, 500), rng.sample(typed3, 1500)
     for k, (ops, ty) in enumerate(pick2 + pickm):
@@ -155,7 +154,7 @@ def chain_shapes(tier, rng):
         out.append({"ops": list(ops), "ty": "".join(ty), "ctx": ("val", "bool")[k % 2], "form": "leaf"})
     for s in out:
         s["part"] = "chain"
-        s["doms"] = chain_doms(s["ty"], len(s["ops"]))
+        s["doms"] = chain_doms(s["ty"], len(s["ops"]), tier)
     return out
 
 
@@ -187,8 +186,10 @@ def member_shapes(tier, rng):
             for n in range(0, 4):
                 if kind == "set" and n == 0:
                     continue
-                mdom = MM if n <= 2 else MM3
+                mdom = MM if n <= 2 else MM3[tier]
                 for form in ("name", "leaf"):
+                    if tier == "quick" and n == 3 and (form == "name") != (kind in ("tuple", "set")):
+                        continue
                     for k, xty in enumerate("oid"):
                         if xty != "o" and n == 3 and tier == "quick":
                             continue
